@@ -358,7 +358,8 @@ func (m *Variant) Encode() ([]byte, error) {
 
 	m.encode(buf, reflect.ValueOf(m.value))
 
-	if m.Has(VariantArrayDimensions) {
+	// like Decode: the dimensions are only present for arrays
+	if m.Has(VariantArrayValues | VariantArrayDimensions) {
 		buf.WriteInt32(m.arrayDimensionsLength)
 		for i := 0; i < int(m.arrayDimensionsLength); i++ {
 			buf.WriteInt32(m.arrayDimensions[i])
